@@ -27,6 +27,11 @@ pub const HUGE: &[u128] = &[
     (1 << 32) + 10,
     1 << 36,
     (1 << 44) - 1,
+    (1 << 64) + 6,
+    (1 << 64) + 2,
+    (1 << 68) + 7,
+    (1 << 100) + 1,
+    (1 << 124) + 6,
 ];
 
 fn finish(mut bytes: Vec<u8>, map: &OffsetMap, fix: bool, what: String, class: &'static str) -> Corrupted {
@@ -158,7 +163,7 @@ pub fn tlf_substitutions(e: &Encoded, ti: usize) -> Vec<(Vec<u8>, &'static str)>
     for &h in HUGE {
         for extra in [0usize, 2] {
             let mut n = 1;
-            while h >> (4 * n) != 0 {
+            while n < 32 && h >> (4 * n) != 0 {
                 n += 1;
             }
             if let Some(tl) = build_tlf_raw(tyb, h, n + extra) {
@@ -273,11 +278,38 @@ pub fn random_corruption(e: &Encoded, rng: &mut Rng) -> Corrupted {
 pub fn structural_faults(e: &Encoded, rng: &mut Rng) -> Vec<Corrupted> {
     let mut v = Vec::new();
     for (mi, m) in e.map.msgs.iter().enumerate() {
+        if m.crc_size != 3 {
+            v.push(set_byte(e, m.end_off, 0x01, false));
+            continue;
+        }
         // bad end marker (checksum is not affected by the end marker)
         v.push(set_byte(e, m.end_off, *rng.pick(&[0x01, 0x76, 0xff]), false));
         // checksum off by one bit in either byte
         v.push(flip(e, m.crc_off + 1, 1 << rng.below(8), false));
         v.push(flip(e, m.crc_off + 2, 1 << rng.below(8), false));
+        // checksum bytes transposed (a specific two-byte corruption)
+        if e.bytes[m.crc_off + 1] != e.bytes[m.crc_off + 2] {
+            let mut b = e.bytes.clone();
+            b.swap(m.crc_off + 1, m.crc_off + 2);
+            v.push(finish(b, &e.map, false, format!("crc-swapped@{}", m.crc_off), "crc-swapped"));
+        }
+        // checksum re-encoded in the one-byte form although its first byte is not zero (only `hi` is kept)
+        if e.bytes[m.crc_off + 1] != 0 {
+            let mut b = e.bytes.clone();
+            let hi = b[m.crc_off + 2];
+            b.splice(m.crc_off..m.crc_off + 3, [0x62, hi]);
+            v.push(Corrupted { bytes: b, what: format!("crc-narrowed@{}", m.crc_off), class: "crc-narrowed", crc_fixed: false });
+        }
+        // a checksum field that is exactly zero ("no checksum")
+        if e.bytes[m.crc_off + 1] != 0 || e.bytes[m.crc_off + 2] != 0 {
+            let mut b = e.bytes.clone();
+            b[m.crc_off + 1] = 0;
+            b[m.crc_off + 2] = 0;
+            v.push(finish(b, &e.map, false, format!("crc-zero@{}", m.crc_off), "crc-zero"));
+            let mut b = e.bytes.clone();
+            b.splice(m.crc_off..m.crc_off + 3, [0x62, 0x00]);
+            v.push(Corrupted { bytes: b, what: format!("crc-zero-narrow@{}", m.crc_off), class: "crc-zero", crc_fixed: false });
+        }
         // checksum TLF declares another width / type
         v.push(set_byte(e, m.crc_off, 0x62, false));
         v.push(set_byte(e, m.crc_off, 0x64, false));
@@ -291,6 +323,23 @@ pub fn structural_faults(e: &Encoded, rng: &mut Rng) -> Vec<Corrupted> {
             let off = t.off + t.size + t.data_len - 1;
             b[off] ^= 0x02;
             v.push(finish(b, &e.map, true, format!("bodytag@{}", off), "variant"));
+        }
+        if t.role == Role::BodyTag {
+            // the same tag in a wider encoding whose high part is not zero (checksum recomputed)
+            let tag = &e.bytes[t.off + t.size..t.off + t.size + t.data_len];
+            let low: Vec<u8> = if tag.len() >= 2 { tag[tag.len() - 2..].to_vec() } else { vec![0, tag[0]] };
+            for hi in [vec![0x01u8], vec![0x00, 0x01], vec![0xff, 0xff], vec![0x80, 0x00]] {
+                let mut f = vec![0x60 | (hi.len() + 2 + 1) as u8];
+                f.extend_from_slice(&hi);
+                f.extend_from_slice(&low);
+                v.push(replace_field(e, ti, &f, true));
+            }
+        }
+        if t.role == Role::TimeTag || t.role == Role::ValueListTag {
+            // the same tag value in a wider (ill-typed) unsigned, checksum recomputed
+            for f in [vec![0x63u8, 0x00, 0x01], vec![0x64, 0x00, 0x00, 0x01], vec![0x65, 0x00, 0x00, 0x00, 0x01], vec![0x52, 0x01]] {
+                v.push(replace_field(e, ti, &f, true));
+            }
         }
         if t.role == Role::TimeTag || t.role == Role::ValueListTag {
             let mut b = e.bytes.clone();
